@@ -58,9 +58,11 @@ def _(u):
     u.inline((DS, "TensorDictDataset.__len__"))
     ds = u.obj(DS, "ExtraKeyDataset")
     u.run(DS, "ExtraKeyDataset.__init__", base, extra, selfobj=ds, record=False)
+    u.native("dataset.extrakey", chunks=[list(c) for c in CHUNKS])
     for c, chunk in enumerate(CHUNKS):
         items = [u.run(DS, "ExtraKeyDataset.__getitem__", i, selfobj=ds, record=False) for i in chunk]
         batch = u.run(DS, "TensorDictDataset.collate_fn", items, record=False)
+        u.native_out(f"chunk{c}.extra", batch["extra"])
         _check_batch(u, f"chunk{c}", batch, td, chunk, D, extra=extra)
     # history: the SAME base dataset is wrapped again with new values (RolloutBaseline.wrap_dataset after a baseline
     # update) after items have already been read through the first wrapper: the new values must be the ones returned
@@ -70,6 +72,7 @@ def _(u):
     for c, chunk in enumerate(CHUNKS[1:3]):
         items = [u.run(DS, "ExtraKeyDataset.__getitem__", i, selfobj=ds2, record=False) for i in chunk]
         batch = u.run(DS, "TensorDictDataset.collate_fn", items, record=False)
+        u.native_out(f"rewrap.chunk{c}.extra", batch["extra"])
         _check_batch(u, f"rewrap.chunk{c}", batch, td, chunk, D, extra=extra2)
     # ... and wrapping the wrapper (nested) as well
     ds3 = u.obj(DS, "ExtraKeyDataset")
@@ -77,6 +80,7 @@ def _(u):
     u.run(DS, "ExtraKeyDataset.__init__", ds2, extra3, selfobj=ds3, record=False)
     items = [u.run(DS, "ExtraKeyDataset.__getitem__", i, selfobj=ds3, record=False) for i in CHUNKS[2]]
     batch = u.run(DS, "TensorDictDataset.collate_fn", items, record=False)
+    u.native_out("nested.chunk.extra", batch["extra"])
     _check_batch(u, "nested.chunk", batch, td, CHUNKS[2], D, extra=extra3)
 
 
